@@ -92,6 +92,9 @@ def generate(rng, tier):
         case["prior"], case["prior_dz_factor"] = "dz", rng.choice([0.6, 0.8, 1.3, 1.7, 3.0])
     elif r_ < 0.22:
         case["prior"] = True
+    elif r_ < 0.32:
+        # the same Layer objects were mapped before with another call-level reduction
+        case["prior"], case["prior_op"] = "op", rng.choice([o for o in OPS + ["sum", "mean"] if o != case["operation"]])
     case["later"] = rng.random() < 0.1
     return case
 
@@ -199,6 +202,9 @@ def execute(case, stats):
         # the same view mapped before with another thickness (same objects, same window, same resolution)
         state = c03.prior_call(case, dg, extra=dict(extra, dz=extra["dz"] * case.get("prior_dz_factor", 1.4)), same_view=True)
         stats.inc("probe.earlier_map_of_the_same_view_with_another_thickness")
+    elif case.get("prior") == "op":
+        state = c03.prior_call(case, dg, extra=dict(extra, operation=case["prior_op"]), same_view=True)
+        stats.inc("probe.earlier_map_of_the_same_layers_with_another_call_level_reduction")
     elif case.get("prior"):
         state = c03.prior_call(case, dg, extra=extra)
         stats.inc("probe.earlier_map_with_the_same_layer_objects")
